@@ -55,7 +55,7 @@ def run(prop, tier, seed):
         else:
             tabs = tables.v2_tables(tier, seed)
         if tier == "thorough" and ver == "4":
-            tabs = [tabs[0], tabs[2]]        # the transposed layout adds nothing in oracle mode
+            tabs = [t for k, t in enumerate(tabs) if k != 4]        # the transposed layout (5th table) adds nothing in oracle mode
         files, total = tables.record(tabs, work, seed)
         c.evaluations += total
         rows_total, macros = 0, set()
